@@ -354,7 +354,7 @@ def run(chk, tier):
         val = vshow(o.value)
         io = d.get('discr(err)') == IO
         eq = io and d.get('Eq(%s, kind)' % KIND) == 1
-        want = 'Error::ProbeFailed(err#IoError.0)' if eq else 'err'
+        want = 'Error::ProbeFailed(err#IoError.0)' if eq else (('err', 'Error::IoError(err#IoError.0)') if io else 'err')
         _row(chk, 'R5', 'probe_failed:io=%s,kind-matches=%s' % (io, eq), f, val, want)
     # presence on the TCP chains: bind and connect of dispatch_tcp_probe (v4, v6) map in_progress then addr_in_use
     for fam in ('ipv4::Ipv4', 'ipv6::Ipv6'):
